@@ -125,12 +125,14 @@ ROWS = {
  'C14': dict(
   text='Lean theorems over ALL schedules of an interleaving model of Rmcp.send_and_receive_raw / keep-alive under the '
        'transaction lock: each caller gets its own reply, exchanges are not interleaved on the socket, session '
-       'sequence numbers are strictly increasing on the wire, no deadlock. The model\'s atomic steps are validated by '
+       'sequence numbers are strictly increasing on the wire, no deadlock. The lock scope, the place of the packing '
+       'and of both sequence-number updates, and the keep-alive callable are re-read from the AST of rmcp.py / '
+       'session.py on every run (Gen/Threads.lean, theorem source_shape). The model\'s atomic steps are validated by '
        'trace inclusion: real threads run under a deterministic scheduler (sys.settrace + scheduler-aware lock), '
        'every schedule with <= 2..3 preemptions plus seeded random ones, each real trace must be accepted by the Lean monitor.',
-  note='harness/sim/sched.py; granularity: source lines and shared-attribute accesses (bytecode-level switches inside a '
+  note='translator harness/translate/threads.py; harness/sim/sched.py; granularity: source lines and shared-attribute accesses (bytecode-level switches inside a '
        'line and GIL release in C calls are not exhibited) - partial with respect to the CPython runtime',
-  tech='Lean 4 proof (invariant over all schedules of a step relation) + trace-inclusion validation on really scheduled threads'),
+  tech='Lean 4 proof (invariant over all schedules of a step relation) + AST translator of the lock/packing shape + trace-inclusion validation on really scheduled threads'),
  'C15': dict(
   text='Lean theorems: parse(encode img) = img for every abstract FRU image (all areas, four text encodings, custom '
        'fields, multi-records incl. PICMG), acceptance implies all zero-sum checksums, hence any single alteration of '
